@@ -18,6 +18,8 @@ Carried by the correspondence check only: the cycle error of `iterate`
 -/
 import FiddleModel.Lemmas.Traverse
 import FiddleModel.Lemmas.RebuildL
+import FiddleModel.Lemmas.RebuildTotal
+import FiddleModel.Lemmas.RebuildStable
 
 namespace Fiddle
 
@@ -107,6 +109,12 @@ private theorem rebuild_inv {h : Heap} (wf : h.WellFormed) {root r : GVal} {st :
   obtain ⟨s, m⟩ := rebuildVal_step h wf _ root {} r st hb (RbSt.inv_init h)
   exact ⟨s.inv, m.1, m.2⟩
 
+/-- The identity rebuild returns on every acyclic structure, whatever its size, depth or
+    sharing (the traversal's fuel `|heap| + 1` suffices). -/
+theorem C08_rebuild_returns (h : Heap) (wf : h.WellFormed) (root : GVal)
+    (hr : ∀ i, root = .ref i → i < h.length) : ∃ r st, rebuild h root = .ok (r, st) :=
+  rebuild_total h wf root hr
+
 /-- Rebuilding through an identity traversal gives a structure of the same types: every new
     object is the copy of exactly one original object, with the same kind, type / callable,
     tags and keys ... -/
@@ -161,5 +169,12 @@ example : dia.WellFormed ∧ dia.PathsDistinct :=
 
 example : (iterate dia .basic (.ref 1)).length = 5 ∧ (iterate dia .memo (.ref 1)).length = 3 ∧
     allPathsTo dia (.ref 1) 0 = [[.index 0], [.index 1]] := by decide
+
+/-- The identity rebuild is idempotent: rebuilding its own result reproduces that result
+    object for object (the result is in the traversal's own canonical order). -/
+theorem C08_rebuild_idempotent (h : Heap) (wf : h.WellFormed) (root r : GVal) (st : RbSt)
+    (hb : rebuild h root = .ok (r, st)) :
+    ∃ st2, rebuild st.out r = .ok (r, st2) ∧ st2.out = st.out :=
+  rebuild_stable h wf root r st hb
 
 end Fiddle
